@@ -335,7 +335,9 @@ def check_builtins(ctx, FB):
                 streams.append(c.toks(1, "nz") + c.toks(7) + c.toks(nlen, "nz") + c.toks(1, "z"))
         else:
             streams.append([0] * 4)
-            streams.append(c.toks(1, "nz") + c.toks(3) + c.toks(4))
+            # a non-zero id is followed by the factor whatever the factor is: a non-zero one and the value 0
+            streams.append(c.toks(1, "nz") + c.toks(3) + c.toks(1, "nz") + c.toks(3))
+            streams.append(c.toks(1, "nz") + c.toks(3) + [0, 0, 0, 0])
         for body in streams:
             cases += 1
             st = Stream(body + c.toks(EXTRA))
